@@ -1644,6 +1644,8 @@ static void MPSreadCols(MPSInput& mps, const LPRowSetBase<R>& rset, const NameSe
       {
          if((idx = rnames.number(mps.field2())) < 0)
             mps.entryIgnored("Column", mps.field1(), "row", mps.field2());
+         else if(vec.pos(idx) >= 0)
+            mps.entryIgnored("Duplicate entry of column", mps.field1(), "row", mps.field2());
          else if(val != 0.0)
             vec.add(idx, val);
       }
@@ -1660,6 +1662,8 @@ static void MPSreadCols(MPSInput& mps, const LPRowSetBase<R>& rset, const NameSe
          {
             if((idx = rnames.number(mps.field4())) < 0)
                mps.entryIgnored("Column", mps.field1(), "row", mps.field4());
+            else if(vec.pos(idx) >= 0)
+               mps.entryIgnored("Duplicate entry of column", mps.field1(), "row", mps.field4());
             else if(val != 0.0)
                vec.add(idx, val);
          }
